@@ -58,6 +58,86 @@ CORPORA = {
     ),
 }
 
+CORPORA.update({
+    # single-thread histories over the key-affecting vocabulary (+ an optional holder thread)
+    "seqkey": dict(
+        module="MC.tla",
+        quick=dict(consts=dict(Family="seq", SeqColls={1}, SeqApis={"lock", "try_lock", "scoped_lock", "scoped_try_lock"},
+                               SeqRels={"drop", "unlock", "forget"}, SeqKeys={"owned", "lent"}, SeqBodies={"none", "panic"},
+                               SeqKeyOps={"probe", "getkey", "dropkey", "forgetkey"}, SeqMaxLen=3,
+                               SeqHolders={("none", 0), ("lock", 3)}, Policies={"RP"}),
+                   parts=14, max_runs=60000),
+        thorough=dict(consts=dict(Family="seq", SeqColls={1, 4, 8}, SeqApis={"lock", "try_lock", "scoped_lock", "scoped_try_lock", "read"},
+                                  SeqRels={"drop", "unlock", "forget"}, SeqKeys={"owned", "lent"}, SeqBodies={"none", "panic"},
+                                  SeqKeyOps={"probe", "getkey", "dropkey", "forgetkey"}, SeqMaxLen=3,
+                                  SeqHolders={("none", 0), ("lock", 3)}, Policies={"RP"}),
+                      parts=16, max_runs=1500000),
+    ),
+    # single-thread sequences over every API flavour x release flavour x key style, with a holder
+    "seqapi": dict(
+        module="MC.tla",
+        quick=dict(consts=dict(Family="seq", SeqColls={1, 2, 3, 4, 5, 6, 13, 14}, SeqApis=ALL_APIS,
+                               SeqRels={"drop", "unlock"}, SeqKeys={"owned", "lent"}, SeqBodies={"acc"},
+                               SeqKeyOps=set(), SeqMaxLen=2,
+                               SeqHolders={("none", 0), ("lock", 3), ("read", 3), ("lock", 6)}, Policies={"RP", "WP"}),
+                   parts=14, max_runs=100000),
+        thorough=dict(consts=dict(Family="seq", SeqColls={1, 2, 3, 4, 5, 6, 7, 9, 13, 14}, SeqApis=ALL_APIS,
+                                  SeqRels={"drop", "unlock", "forget"}, SeqKeys={"owned", "lent"}, SeqBodies={"acc", "none"},
+                                  SeqKeyOps={"probe"}, SeqMaxLen=2,
+                                  SeqHolders={("none", 0), ("lock", 3), ("read", 3), ("lock", 6), ("read", 4)},
+                                  Policies={"RP", "WP"}),
+                      parts=16, max_runs=1500000),
+    ),
+    # panics in user code at every critical section, poisonable wrappers everywhere
+    "panic": dict(
+        module="MC.tla",
+        quick=dict(consts=dict(Family="seq", SeqColls={3, 7, 8, 9, 11, 12, 15, 16}, SeqApis=ALL_APIS,
+                               SeqRels={"drop"}, SeqKeys={"owned"}, SeqBodies={"acc", "panic"},
+                               SeqKeyOps=set(), SeqTopOps={("is_poisoned", 8), ("clear_poison", 8), ("is_poisoned", 7)},
+                               SeqMaxLen=2, SeqHolders={("none", 0)}, Policies={"RP"}),
+                   parts=14, max_runs=100000),
+        thorough=dict(consts=dict(Family="seq", SeqColls={1, 2, 3, 4, 5, 6, 7, 8, 9, 10, 11, 12, 15, 16}, SeqApis=ALL_APIS,
+                                  SeqRels={"drop", "unlock"}, SeqKeys={"owned", "lent"}, SeqBodies={"acc", "panic"},
+                                  SeqKeyOps={"probe"}, SeqTopOps={("is_poisoned", 8), ("clear_poison", 8), ("is_poisoned", 7),
+                                                                  ("clear_poison", 7), ("is_poisoned", 11), ("clear_poison", 11)},
+                                  SeqMaxLen=2, SeqHolders={("none", 0), ("lock", 3), ("read", 3)}, Policies={"RP", "WP"}),
+                      parts=16, max_runs=1500000),
+    ),
+    # two threads, thread 1's critical section panics; thread 2 waits for the same locks
+    "concpanic": dict(
+        module="MC.tla",
+        quick=dict(consts=dict(Kinds=ALL_KINDS, ApisA=ALL_APIS,
+                               CallsB={("single", (1,), "lock"), ("owned", (4,), "read"), ("boxed", (4, 1), "lock")},
+                               UnivA={1, 2, 4}, MinLenA=1, MaxLenA=2,
+                               Policies={"RP"}, NT=2, Keys={"owned", "lent"}, ConcBodies={"panic"}),
+                   parts=14, max_runs=150000),
+        thorough=dict(consts=dict(Kinds=ALL_KINDS, ApisA=ALL_APIS, CallsB=HOLDERS_2,
+                                  UnivA={1, 2, 4}, MinLenA=0, MaxLenA=3,
+                                  Policies={"RP", "WP"}, NT=2, Keys={"owned", "lent"}, ConcBodies={"panic"}),
+                      parts=16, max_runs=1500000),
+    ),
+    # non-acquiring operations ({:?}, is_poisoned, clear_poison) against every held pattern
+    "ops": dict(
+        module="MC.tla",
+        quick=dict(consts=dict(Family="seq", SeqColls={1, 2, 3, 4, 5, 6, 7}, SeqApis={"lock", "read", "scoped_lock", "scoped_read"},
+                               SeqRels={"drop"}, SeqKeys={"owned"}, SeqBodies={"dbg"}, SeqDbgColls={1, 2, 3, 4, 5, 6, 7, 9, 13},
+                               SeqKeyOps=set(), SeqTopOps={("debug", 1), ("debug", 2), ("debug", 3), ("debug", 4), ("debug", 5),
+                                                           ("debug", 6), ("debug", 7), ("debug", 9), ("debug", 13),
+                                                           ("is_poisoned", 7), ("clear_poison", 7)},
+                               SeqMaxLen=1, SeqHolders={("none", 0), ("lock", 3), ("read", 3), ("lock", 6), ("lock", 13), ("read", 4)},
+                               Policies={"RP", "WP"}),
+                   parts=14, max_runs=100000),
+        thorough=dict(consts=dict(Family="seq", SeqColls={1, 2, 3, 4, 5, 6, 7, 9, 13, 14}, SeqApis=ALL_APIS,
+                                  SeqRels={"drop"}, SeqKeys={"owned"}, SeqBodies={"dbg"}, SeqDbgColls={1, 2, 3, 4, 5, 6, 7, 9, 13, 14},
+                                  SeqKeyOps=set(), SeqTopOps={("debug", 1), ("debug", 2), ("debug", 3), ("debug", 4), ("debug", 5),
+                                                              ("debug", 6), ("debug", 7), ("debug", 9), ("debug", 13), ("debug", 14),
+                                                              ("is_poisoned", 7), ("clear_poison", 7)},
+                                  SeqMaxLen=2, SeqHolders={("none", 0), ("lock", 3), ("read", 3), ("lock", 6), ("lock", 13), ("read", 4)},
+                                  Policies={"RP", "WP"}),
+                      parts=16, max_runs=1500000),
+    ),
+})
+
 FLT_PROBES_TRY = {1, 17, 2, 6}
 FLT_PROBES_LOCK = {1, 17, 2}
 CORPORA.update({
@@ -78,6 +158,17 @@ CORPORA.update({
     ),
 })
 
+CORPORA.update({
+    # checked constructors over every member list with repetition (TLC as the input enumerator)
+    "ctor": dict(
+        module="MC.tla",
+        quick=dict(consts=dict(Family="ctor", CtorKinds={"boxed", "ref", "retry"}, CtorUniv={1, 2, 3, 4, 5, 6, 7, 8}, CtorMaxLen=3),
+                   parts=14, max_runs=None),
+        thorough=dict(consts=dict(Family="ctor", CtorKinds={"boxed", "ref", "retry"}, CtorUniv={1, 2, 3, 4, 5, 7}, CtorMaxLen=6),
+                      parts=16, max_runs=None),
+    ),
+})
+
 PROPS = {
     "C01": dict(corpora=["conc2", "size3", "conc3"], design="DESIGN.md §5 C01"),
     "C02": dict(corpora=["conc2", "size3"], design="DESIGN.md §5 C02"),
@@ -92,4 +183,5 @@ PROPS = {
     "C11": dict(corpora=["concpanic", "panic"], design="DESIGN.md §5 C11"),
     "C17": dict(corpora=["ops"], design="DESIGN.md §5 C17"),
     "C12": dict(corpora=["fault"], design="DESIGN.md §5 C12"),
+    "C07": dict(corpora=["ctor"], design="DESIGN.md §5 C07"),
 }
